@@ -47,8 +47,15 @@ Outcome(f) ==
 
 Status(o) == IF o = "completed" THEN 0 ELSE 1
 
-VARIABLES phase, fault, outcome, status, done, entry, strategy
-vars == <<phase, fault, outcome, status, done, entry, strategy>>
+(* general options that must not change the outcome of a run (each alone;   *)
+(* the mutator options are C14's, the comparison options C09's)             *)
+Flags == {"none", "-v", "-v -v", "-q", "--pretty-print", "--wrap-lines",
+          "--unchecked", "--check-loops", "--profile", "--dump-diffs",
+          "--replace-by-variable-mode dec", "--memout 2000", "-j 2",
+          "--timeout 20", "--dump-config", "--parser-test"}
+
+VARIABLES phase, fault, outcome, status, done, entry, strategy, flag
+vars == <<phase, fault, outcome, status, done, entry, strategy, flag>>
 
 Idx(p) == CHOOSE i \in 1..Len(Phases) : Phases[i] = p
 
@@ -56,19 +63,21 @@ Init == /\ phase = "argv" /\ fault \in Faults /\ outcome = "running"
         /\ status = -1 /\ done = FALSE
         /\ entry \in {"bin", "module"}
         /\ strategy \in {"ddmin", "hierarchical", "hybrid"}
+        /\ flag \in (IF fault = "none" /\ strategy = "hybrid" THEN Flags
+                     ELSE {"none"})
 
 Advance == /\ ~done /\ phase # "report" /\ phase # FaultPhase(fault)
            /\ phase' = Phases[Idx(phase) + 1]
-           /\ UNCHANGED <<fault, outcome, status, done, entry, strategy>>
+           /\ UNCHANGED <<fault, outcome, status, done, entry, strategy, flag>>
 
 Fail == /\ ~done /\ Outcome(fault) # "completed" /\ phase = FaultPhase(fault)
         /\ outcome' = Outcome(fault) /\ status' = Status(Outcome(fault))
         /\ done' = TRUE
-        /\ UNCHANGED <<phase, fault, entry, strategy>>
+        /\ UNCHANGED <<phase, fault, entry, strategy, flag>>
 
 Report == /\ ~done /\ Outcome(fault) = "completed" /\ phase = "report"
           /\ outcome' = "completed" /\ status' = 0 /\ done' = TRUE
-          /\ UNCHANGED <<phase, fault, entry, strategy>>
+          /\ UNCHANGED <<phase, fault, entry, strategy, flag>>
 
 Next == Advance \/ Fail \/ Report
 Spec == Init /\ [][Next]_vars
